@@ -54,6 +54,8 @@ REQ_SETS = (
     # the end-to-end headers a client library typically sets by itself
     ("GET", [(b"User-Agent", b"caller-agent/1.0"), (b"authorization", b"Bearer callertoken"), (b"Cookie", b"sid=callercookie"),
              (b"X-Secret", b"s3cret")], None),
+    # a caller that overrides the proxy's own headers for this one request (forwarding only)
+    ("GET", [(b"proxy-authorization", b"Basic Y2FsbGVyOngK"), (b"x-proxy-tag", b"callers-tag"), (b"X-Secret", b"s3cret")], None),
 )
 
 
@@ -62,10 +64,10 @@ REQ_SETS = (
     quick=[{"px": px, "flavour": "sync"} for px in ("http", "https")],
     thorough=[{"px": px, "flavour": fl} for px in ("http", "https") for fl in ("sync", "async")],
     example=dict(auth=True, ph=2, rq=1, secure=True, port=1, st=0, sni=False, tgt=True),
-    require=("C11:forwarded", "tunnelled", "connect-refused", "target-extension"),
+    require=("C11:forwarded", "C11:forwarded-twice", "tunnelled", "connect-refused", "target-extension"),
     timeout={"quick": 300, "thorough": 600},
     symbolic="credentials on/off; proxy header set (3, one colliding case-insensitively); request method/headers/body (4, incl. User-Agent/Authorization/Cookie); origin scheme http/https; port default/other; CONNECT reply status from 8 values; whether the request carries the `target` extension",
-    bounds="one request per run through an http:// or https:// proxy",
+    bounds="one request per run through an http:// or https:// proxy (forwarding: followed by a second request on the same connection)",
     outside="IPv6-literal origins (known finding under C19); proxy replies with bodies",
     stubs=("ProxyServer model: strict parse of what the client wrote; answers CONNECT with the scripted status",),
     also=("C10",),
@@ -74,7 +76,7 @@ REQ_SETS = (
 )
 def http_proxy_hop(auth: bool, ph: int, rq: int, secure: bool, port: int, st: int, sni: bool, tgt: bool) -> None:
     """
-    pre: 0 <= ph <= 2 and 0 <= rq <= 3 and 0 <= port <= 1 and 0 <= st <= 7
+    pre: 0 <= ph <= 2 and 0 <= rq <= 4 and 0 <= port <= 1 and 0 <= st <= 7
     post: _
     """
     is_async = shard("flavour", "sync") == "async"
@@ -83,6 +85,8 @@ def http_proxy_hop(auth: bool, ph: int, rq: int, secure: bool, port: int, st: in
     method, rheaders, body = pick(rq, REQ_SETS)
     use_auth = bool(auth)
     is_secure = bool(secure)
+    if is_secure and rheaders and rheaders[0][0] == b"proxy-authorization":
+        return  # inside a tunnel such headers are simply the caller's own end-to-end headers
     other_port = ladder(port, 0, 1) == 1
     status = pick(st, CONNECT_STATUS) if is_secure else 200
     use_sni = bool(sni)
@@ -162,6 +166,14 @@ def _http_proxy_hop(is_async: bool, px: str, pheaders: list, method: str, rheade
                 lambda: f"proxy:forward:headers:{req.headers!r}!={want!r}")
         P.check(req.body == (body or b""), "body-forwarded", "proxy:forward:body")
         P.check(len(sock.tls) == own, "no-origin-tls-on-forward", "proxy:forward:tls")
+        # a second request on the same (kept-alive) connection: what the first one overrode is back
+        o2 = api.request(pool, "GET", url, headers=[(b"X-Other", b"o")],
+                         extensions={"timeout": {"pool": 0, "read": 5, "write": 5, "connect": 5}})
+        if P.check(o2.ok and len(pr.requests) == 2 and len(proxies) == 1, "second-forwarded-request-ok", lambda: f"proxy:forward:second:{o2.kind()}"):
+            P.cover("forwarded-twice")
+            want2 = [(b"Host", hostport.encode())] + configured + [(b"X-Other", b"o")]
+            P.check(pr.requests[1].headers == want2, "proxy-headers-merged-beneath-callers",
+                    lambda: f"proxy:forward:headers-of-the-next-request:{pr.requests[1].headers!r}!={want2!r}")
         return
 
     # -------------------- tunnelling
